@@ -787,7 +787,8 @@ func cmdCheckC12(cfg *PropCfg, hcfgs []HarnessCfg, prog *ssa.Program, pkg *ssa.P
 		st := ex.Run()
 		m := methods[mi]
 		if m == nil {
-			m = &c12Method{Index: mi, Accesses: map[c12Access]bool{}, WriteHeld: map[string]bool{}, Params: hc.Params}
+			m = &c12Method{Index: mi, Accesses: map[c12Access]bool{}, WriteHeld: map[string]bool{}, Params: hc.Params,
+				AccessVec: map[c12Access][]ReplayVal{}, AccessPar: map[c12Access]map[string]int{}, IntraVec: map[string][]ReplayVal{}}
 			methods[mi] = m
 		}
 		for _, t := range st.Tracks {
@@ -836,7 +837,7 @@ func cmdCheckC12(cfg *PropCfg, hcfgs []HarnessCfg, prog *ssa.Program, pkg *ssa.P
 	var findings []c12Finding
 	for _, i := range idxs {
 		for _, v := range methods[i].Intra {
-			findings = append(findings, c12Finding{Kind: "discipline", A: i, B: 0, Detail: methods[i].Name + ": " + v})
+			findings = append(findings, c12Finding{intra: v, Kind: "discipline", A: i, B: 0, Detail: methods[i].Name + ": " + v})
 		}
 	}
 	pairs := 0
@@ -876,15 +877,22 @@ func cmdCheckC12(cfg *PropCfg, hcfgs []HarnessCfg, prog *ssa.Program, pkg *ssa.P
 		}
 		a, b := f.A, f.B
 		if f.Kind == "discipline" {
-			b = 0 // pair the offending method with Modify
+			b = -1 // pair the offending method with a writer that keeps asking for the lock
 		}
 		ma := methods[a]
 		if ma == nil || ma.Vector == nil {
 			problems = append(problems, "no witness vector for method "+fmt.Sprint(a))
 			continue
 		}
+		// inputs of a path of A that really performs the access in question
+		vec, par := ma.Vector, ma.Params
+		if f.Kind == "discipline" && ma.IntraVec[f.intra] != nil {
+			vec = ma.IntraVec[f.intra]
+		} else if v := ma.AccessVec[f.accA]; v != nil {
+			vec, par = v, ma.AccessPar[f.accA]
+		}
 		vf := filepath.Join(outDir(), "replay", fmt.Sprintf("C12-pair-%d-%d.json", a, b))
-		vb, _ := json.Marshal(map[string]interface{}{"harness": "HarnessC12Method", "vector": ma.Vector, "params": ma.Params, "pair": []int{a, b}, "finding": f})
+		vb, _ := json.Marshal(map[string]interface{}{"harness": "HarnessC12Method", "vector": vec, "params": par, "pair": []int{a, b}, "finding": f})
 		os.WriteFile(vf, vb, 0o644)
 		res := runRacePair(br.bin, vf, a, b)
 		f.ReplayF = vf
@@ -892,7 +900,7 @@ func cmdCheckC12(cfg *PropCfg, hcfgs []HarnessCfg, prog *ssa.Program, pkg *ssa.P
 		// which known finding (if any) names exactly this pair of methods
 		tag := ""
 		for t, kf := range kfs {
-			if strings.Contains(kf.What, "["+methods[a].Name+"]") && (f.Kind == "discipline" || strings.Contains(kf.What, "["+methods[b].Name+"]") || strings.Contains(kf.What, "[any]")) {
+			if strings.Contains(kf.What, "["+methods[a].Name+"]") && (f.Kind == "discipline" || (methods[b] != nil && strings.Contains(kf.What, "["+methods[b].Name+"]")) || strings.Contains(kf.What, "[any]")) {
 				tag = t
 			}
 		}
